@@ -60,6 +60,7 @@ FACTORIES = {
 }
 HARD_DEFAULTS = {"digits": 6, "alg": "sha1", "period": 30}
 FIELDS = ("key", "alg", "digits", "period", "label", "issuer")
+OTHER_ALGS = tuple(a for a in ("sha224", "sha384", "sha3_256", "sha3_512", "blake2b", "blake2s") if hasattr(hashlib, a))
 PROBES = (0, 59, 1111111111, 2**32 + 29)
 
 _FAC = {}
@@ -815,6 +816,10 @@ def run(ctx):
         if n in keylens:
             continue
         tasks.append({"part": "configs", "keylen": n, "alg": R.ALGS[n % len(R.ALGS)], "periods": (30, 60), "labels": ("a",), "seed": seed})
+    # the digests beyond the usual three that the constructor takes (any digest of at least 20 bytes the host offers):
+    # the object is written and read back in every format like any other
+    for alg in OTHER_ALGS:
+        tasks.append({"part": "configs", "keylen": 20, "alg": alg, "periods": (30, 60), "labels": ("a",), "seed": seed})
     # ---- corruptions
     dp = ((6, 30), (8, 30), (6, 60), (10, 1)) if ctx.quick else ((6, 30), (7, 30), (8, 30), (6, 60), (10, 1), (9, 3600))
     li = (("a", None), ("u@h", "I s/%"), ("é", "日"))
